@@ -385,7 +385,9 @@ fn gen_values_case(rng: &mut Rng, idx: u64, _run: &Run) -> Vec<String> {
         .collect()
 }
 
-async fn roundtrip<T>(value: &T, cap: usize) -> std::io::Result<T>
+/// `buffer` is the caller's receive buffer, REUSED for every message of a case (as ntp-ctl, the metrics exporter or
+/// any long-lived client would): a shorter message after a longer one must still be read correctly
+async fn roundtrip<T>(value: &T, cap: usize, buffer: &mut Vec<u8>) -> std::io::Result<T>
 where
     T: serde::Serialize + for<'a> serde::Deserialize<'a>,
 {
@@ -394,8 +396,7 @@ where
     // a writer still blocked on a full pipe fails with BrokenPipe instead of waiting forever
     let reader = async move {
         let mut b = b;
-        let mut buffer = Vec::new();
-        read_json::<T>(&mut b, &mut buffer).await
+        read_json::<T>(&mut b, buffer).await
     };
     let (w, r) = tokio::join!(write_json(&mut a, value), reader);
     let v = r?;
@@ -405,6 +406,8 @@ where
 
 fn exec_values_case(ops: &[String], run: &mut Run) {
     let rt = rt();
+    // one receive buffer for the whole case: messages of different lengths follow each other
+    let mut buffer: Vec<u8> = Vec::new();
     let mut key = String::new();
     for (i, op) in ops.iter().enumerate() {
         run.begin_op(op);
@@ -419,7 +422,7 @@ fn exec_values_case(ops: &[String], run: &mut Run) {
                         continue;
                     }
                 };
-                match rt.block_on(roundtrip(&x, cap)) {
+                match rt.block_on(roundtrip(&x, cap, &mut buffer)) {
                     Ok(y) => {
                         if y.to_bits() != x.to_bits() {
                             let ulps = (y.to_bits() as i128 - x.to_bits() as i128).abs();
@@ -433,7 +436,10 @@ fn exec_values_case(ops: &[String], run: &mut Run) {
                         run.hit("f64");
                         run.end_op(&f64hex(y));
                     }
-                    Err(e) => run.end_op(&format!("err:{}", err_kind(&e))),
+                    Err(e) => {
+                        run.oracle_fail("value_read_back", &format!("op={}", i), &format!("a written value could not be read back with the reused buffer: {} (op {:?})", e, op));
+                        run.end_op(&format!("err:{}", err_kind(&e)))
+                    }
                 }
             }
             ["dur", d] => {
@@ -444,7 +450,7 @@ fn exec_values_case(ops: &[String], run: &mut Run) {
                         continue;
                     }
                 };
-                match rt.block_on(roundtrip(&dur_from_raw(raw), cap)) {
+                match rt.block_on(roundtrip(&dur_from_raw(raw), cap, &mut buffer)) {
                     Ok(y) => {
                         let back = dur_raw(y);
                         // "durations to within one part per billion plus one 2^-32 s unit"
@@ -459,7 +465,10 @@ fn exec_values_case(ops: &[String], run: &mut Run) {
                         run.hit(if diff == 0 { "dur-exact" } else { "dur-within-bound" });
                         run.end_op(&back.to_string());
                     }
-                    Err(e) => run.end_op(&format!("err:{}", err_kind(&e))),
+                    Err(e) => {
+                        run.oracle_fail("value_read_back", &format!("op={}", i), &format!("a written value could not be read back with the reused buffer: {} (op {:?})", e, op));
+                        run.end_op(&format!("err:{}", err_kind(&e)))
+                    }
                 }
             }
             ["u64", n] => {
@@ -470,7 +479,7 @@ fn exec_values_case(ops: &[String], run: &mut Run) {
                         continue;
                     }
                 };
-                match rt.block_on(roundtrip(&x, cap)) {
+                match rt.block_on(roundtrip(&x, cap, &mut buffer)) {
                     Ok(y) => {
                         if y != x {
                             run.oracle_fail("integer_equal", "", &format!("u64 {} read back as {}", x, y));
@@ -478,7 +487,10 @@ fn exec_values_case(ops: &[String], run: &mut Run) {
                         key.push('u');
                         run.end_op(&y.to_string());
                     }
-                    Err(e) => run.end_op(&format!("err:{}", err_kind(&e))),
+                    Err(e) => {
+                        run.oracle_fail("value_read_back", &format!("op={}", i), &format!("a written value could not be read back with the reused buffer: {} (op {:?})", e, op));
+                        run.end_op(&format!("err:{}", err_kind(&e)))
+                    }
                 }
             }
             _ => run.end_op("bad-op"),
